@@ -464,6 +464,9 @@ impl<'a, T: 'a + Input> Input for PrefixInput<'a, T> {
     // PrefixInput does not forward descend/ascend/alloc hooks (trait defaults): it is only handed to u16/u32 decoders
     open spec fn depth_st(&self) -> Option<(nat, nat)> { None }
     open spec fn mem_room(&self) -> Option<nat> { None }
+    type Frame = T;
+    #[verifier::prophetic]
+    open spec fn frame(&self) -> T { mut_ref_future(self.input) }
 
     // `self.prefix.iter().count()` (iterator adapter): outside Verus; contract assumed, discharged by Kani (kani.prefix_remaining_len)
     //@fn prefix.remaining_len :: compact | impl<'a,T:'a + Input>Input for PrefixInput<'a,T> | remaining_len
@@ -474,6 +477,7 @@ impl<'a, T: 'a + Input> Input for PrefixInput<'a, T> {
     //@+     old(buffer)@.len() > 0 && r is Ok ==> final(self).prefix is None,
     //@+     mut_ref_future(final(self).input) == mut_ref_future(old(self).input),
     //@+     final(self).input.depth_st() == old(self).input.depth_st(),
+    //@+     final(self).input.frame() == old(self).input.frame(),
     //@+     final(self).input.mem_room() == old(self).input.mem_room(),
     //@ at start
     //@+ proof { broadcast use sl::take_skip; }
@@ -494,6 +498,7 @@ impl<'a, T: 'a + Input> Input for PrefixInput<'a, T> {
 //@+ ensures
 //@+     mut_ref_future(final(input).input) == mut_ref_future(old(input).input),
 //@+     final(input).input.depth_st() == old(input).input.depth_st(),
+//@+     final(input).input.frame() == old(input).input.frame(),
 //@+     final(input).input.mem_room() == old(input).input.mem_room(),
 //@+     match r {
 //@+         Ok(v) => old(input).bytes().len() >= 2 && old(input).bytes() == le(v as nat, 2) + final(input).input.bytes() && final(input).prefix is None,
@@ -509,6 +514,7 @@ impl<'a, T: 'a + Input> Input for PrefixInput<'a, T> {
 //@+ ensures
 //@+     mut_ref_future(final(input).input) == mut_ref_future(old(input).input),
 //@+     final(input).input.depth_st() == old(input).input.depth_st(),
+//@+     final(input).input.frame() == old(input).input.frame(),
 //@+     final(input).input.mem_room() == old(input).input.mem_room(),
 //@+     match r {
 //@+         Ok(v) => old(input).bytes().len() >= 4 && old(input).bytes() == le(v as nat, 4) + final(input).input.bytes() && final(input).prefix is None,
@@ -634,6 +640,7 @@ impl Decode for Compact<$T> {
     open spec fn dec_bytes(v: &Self) -> Seq<u8> { compact(v.0 as nat) }
     open spec fn need_depth(b: Seq<u8>) -> nat { 0 }
     proof fn law_bound(b: Seq<u8>) {}
+    #[verifier::rlimit(300)]
     //@fn compact.$T.decode :: compact | impl Decode for Compact<$T> | decode
     //@ ret r
     //@+ ensures r matches Ok(v) ==> compact_dec(old(input).bytes()) == Some((v.0 as nat, compact(v.0 as nat).len())),
@@ -658,6 +665,7 @@ $ARMS    //@ at before `let mut res = 0;`
     //@+     res as nat == from_le(b0.subrange(1, 1 + i as int)),
     //@+     input.depth_st() == old(input).depth_st(),
     //@+     input.mem_room() == old(input).mem_room(),
+    //@+     input.frame() == old(input).frame(),
     //@+     b0 == old(input).bytes(),
     //@+     b0.len() >= 1 && b0[0] % 4 == 3,
     //@ at after `res |= $T::from(input.read_byte()?) << (i * 8);`
